@@ -217,6 +217,7 @@ Definition c10_oracle (sc : scenario) (o : observation) : option bool :=
   | [(kind, init)], [] =>
       if negb (Nat.eqb (ob_out o) 0) then None
       else if negb (forallb (fun a => match a with
+                                     | DSub _ (PRef i) [] => direct_or_id (nth i (sc_defs sc) PNever)     (* one Observable value shared by several subscribers *)
                                      | DSub _ p [] => direct_or_id p
                                      | DSub _ _ _ => false
                                      | DEmit h _ => Nat.eqb h 0
@@ -243,12 +244,15 @@ Definition c10_oracle (sc : scenario) (o : observation) : option bool :=
 
 (* ------------------------------------------------------------------ C13: reference machine of the connectables *)
 Record cref := { q_reg : list nat; q_conn : bool; q_items : list val; q_term : option ev;
-                 q_logs : nat -> list ev; q_attempts : nat; q_dbl : bool (* a second connect while connected: outside the oracle *) }.
+                 q_logs : nat -> list ev; q_attempts : nat; q_dbl : bool (* a second connect while connected: outside the oracle *);
+                 q_live : option nat (* publish: the connection handle of the live connection *) }.
 Definition q_add_log (r : cref) (k : nat) (es : list ev) : cref :=
   {| q_reg := q_reg r; q_conn := q_conn r; q_items := q_items r; q_term := q_term r;
-     q_logs := fun x => if Nat.eqb x k then q_logs r x ++ es else q_logs r x; q_attempts := q_attempts r; q_dbl := q_dbl r |}.
+     q_logs := fun x => if Nat.eqb x k then q_logs r x ++ es else q_logs r x; q_attempts := q_attempts r; q_dbl := q_dbl r; q_live := q_live r |}.
 Definition q_upd (r : cref) (reg : list nat) (conn : bool) : cref :=
-  {| q_reg := reg; q_conn := conn; q_items := q_items r; q_term := q_term r; q_logs := q_logs r; q_attempts := q_attempts r; q_dbl := q_dbl r |}.
+  {| q_reg := reg; q_conn := conn; q_items := q_items r; q_term := q_term r; q_logs := q_logs r; q_attempts := q_attempts r; q_dbl := q_dbl r; q_live := q_live r |}.
+Definition q_set_live (r : cref) (l : option nat) : cref :=
+  {| q_reg := q_reg r; q_conn := q_conn r; q_items := q_items r; q_term := q_term r; q_logs := q_logs r; q_attempts := q_attempts r; q_dbl := q_dbl r; q_live := l |}.
 Definition q_deliver (r : cref) (es : list ev) : cref := fold_left (fun acc k => q_add_log acc k es) (q_reg r) r.
 
 (* the source signals e while subscribed *)
@@ -257,17 +261,17 @@ Definition q_source_ev (kind : ckind) (r : cref) (e : ev) : cref :=
     match e with
     | Nx v => let r1 := q_deliver r [Nx v] in
               {| q_reg := q_reg r1; q_conn := true; q_items := q_items r1 ++ [v]; q_term := q_term r1; q_logs := q_logs r1;
-                 q_attempts := q_attempts r1; q_dbl := q_dbl r1 |}
+                 q_attempts := q_attempts r1; q_dbl := q_dbl r1; q_live := q_live r1 |}
     | t => let r1 := q_deliver r [t] in
            {| q_reg := []; q_conn := false; q_items := q_items r1; q_term := Some t; q_logs := q_logs r1;
-              q_attempts := q_attempts r1; q_dbl := q_dbl r1 |}
+              q_attempts := q_attempts r1; q_dbl := q_dbl r1; q_live := q_live r1 |}
     end
   else r.
 
 (* the source gets subscribed: a cold source plays its (well-formed) script at once *)
 Definition q_connect (kind : ckind) (cold : option (list ev)) (r : cref) : cref :=
   let r1 := {| q_reg := q_reg r; q_conn := true; q_items := q_items r; q_term := q_term r; q_logs := q_logs r;
-               q_attempts := S (q_attempts r); q_dbl := q_dbl r || q_conn r |} in
+               q_attempts := S (q_attempts r); q_dbl := q_dbl r || q_conn r; q_live := q_live r |} in
   match cold with
   | Some script => fold_left (q_source_ev kind) script r1
   | None => r1
@@ -296,12 +300,20 @@ Definition cref_step (kind : ckind) (cold : option (list ev)) (r : cref) (a : ac
       | CPublish => q_upd r reg (q_conn r)
       | _ => q_upd r reg (match reg with [] => false | _ => q_conn r end)      (* the last one leaving stops the source *)
       end
-  | DConnect _ _ => match kind with CPublish => q_connect kind cold r | _ => r end
-  | DDisconnect _ => match kind with CPublish => q_upd r (q_reg r) false | _ => r end
+  | DConnect _ x => match kind with CPublish => q_set_live (q_connect kind cold r) (Some x) | _ => r end
+  | DDisconnect x =>      (* only the handle of the live connection stops the source *)
+      match kind with
+      | CPublish => match q_live r with
+                    | Some y => if Nat.eqb x y then q_set_live (q_upd r (q_reg r) false) None else r
+                    | None => r
+                    end
+      | _ => r
+      end
   | DEmit _ e => q_source_ev kind r e
+  | DPush _ _ => r
   end.
 
-Definition cref0 : cref := {| q_reg := []; q_conn := false; q_items := []; q_term := None; q_logs := fun _ => []; q_attempts := 0; q_dbl := false |}.
+Definition cref0 : cref := {| q_reg := []; q_conn := false; q_items := []; q_term := None; q_logs := fun _ => []; q_attempts := 0; q_dbl := false; q_live := None |}.
 
 Definition c13_oracle (sc : scenario) (o : observation) : option bool :=
   match sc_conns sc with
